@@ -6,6 +6,7 @@ import (
 	"fmt"
 	tiertypes "github.com/elys-network/elys/x/tier/types"
 	"sort"
+	"time"
 
 	"cosmossdk.io/math"
 	sdk "github.com/cosmos/cosmos-sdk/types"
@@ -371,6 +372,51 @@ func NewOpLib() *OpLib {
 				amt = I(1)
 			}
 			p.Txs = one(signer, &ammtypes.MsgExitPool{Sender: a.Addr.String(), PoolId: pool, ShareAmountIn: amt, MinAmountsOut: sdk.Coins{}, TokenOutDenom: outDenom})
+		})
+	}
+	// the LARGEST single-asset exit of the oracle pool that the founder (who holds most shares) can get
+	// accepted — found by bisection over dry runs of the very message on discarded branches: it comes
+	// as close to the whole reserve of the out asset as the pool allows
+	for _, od := range []string{"uusdc", "uatom"} {
+		od := od
+		l.Add("exit_p1_single_"+od+"_largest_accepted_lp1", "exit", 0, func(w *World, p *BlockPlan) {
+			a := w.A("lp1")
+			have := w.CommittedOf(a.Addr, ammtypes.GetPoolShareDenom(1))
+			mk := func(x math.Int) *ammtypes.MsgExitPool {
+				return &ammtypes.MsgExitPool{Sender: a.Addr.String(), PoolId: 1, ShareAmountIn: x, MinAmountsOut: sdk.Coins{}, TokenOutDenom: od}
+			}
+			try := func(x math.Int) bool {
+				if !x.IsPositive() {
+					return false
+				}
+				c, _ := w.Ctx().CacheContext()
+				c = c.WithBlockHeight(w.Height() + 1).WithBlockTime(time.Unix(w.Env.Tm+5, 0).UTC())
+				m := mk(x)
+				ok := false
+				func() {
+					defer func() { recover() }()
+					_, err := w.App.MsgServiceRouter().Handler(m)(c, m)
+					ok = err == nil
+				}()
+				return ok
+			}
+			lo, hi := math.ZeroInt(), have
+			if try(hi) {
+				lo = hi
+			} else {
+				for i := 0; i < 130 && hi.Sub(lo).GT(math.OneInt()); i++ {
+					mid := lo.Add(hi).QuoRaw(2)
+					if try(mid) {
+						lo = mid
+					} else {
+						hi = mid
+					}
+				}
+			}
+			if !lo.IsPositive() {
+				lo = I(1)
+			}
+			p.Txs = one("lp1", mk(lo))
 		})
 	}
 	exit("exit_p1_10pct_lp1", "lp1", 1, 1, 10, 0, "")
